@@ -57,3 +57,8 @@ claim("C07", "fault_enumeration",
       "The fault is a disk that stalls at a scripted point. Layer 1 runs asyncbufio.Writer (depths 1..64 and the real 1000) over a gated writer and checks at every Flush/Close return that the sink holds exactly the accepted payloads in order. Layer 2 points real LJH2.2/LJH3/OFF writers at a 4 KiB named pipe that is not drained until the scripted moment, forcing the 1000-entry queue to fill and reject; the byte stream is decoded and must be header + exactly the records whose WriteRecord returned nil, whole and in order, and complete when Flush returned.",
       "Stall points are enumerated over (writer type x record size x stalled-from x released-when); within a stall the interleaving of producer and writer goroutine is left to the scheduler. Linux pipe semantics stand in for the disk.",
       "fault injection (gated writer / undrained FIFO) + FIFO/atomicity oracle over unique ids", "DESIGN.md §3 C07")
+
+claim("C03", "exploration",
+      "The real Start/Sample/PrepareChannels/StartRun/readerMainLoop/getNextBlock/CoreLoop pipeline runs against scripted PacketProducers (packets built by the public constructors and passed through Bytes()/ReadPacket): 1-4 channel groups on 1-3 producers, 1-32 frames per packet, int16/int32 payloads, per-group sequence-number bases, loss patterns (isolated, bursts, long runs, first packets, dense) and per-tick batching with empty ticks and lagging groups. Every sample value encodes (channel, global frame); every block handed to ProcessSegments is compared with the per-channel reference stream (delivered samples in order, frames-per-packet filler per lost packet), equal lengths on all channels, contiguous frame numbers, and the dropped-frame total with the frames filled in. Each script is executed 3-6 times because the reader iterates a Go map.",
+      "Scripted producers stand in for UDP/ring hardware and implement the repository's PacketProducer interface. Equal frames per packet in all groups, timestamps present, run continues the sequence numbers seen while sampling. Filler values unconstrained; progress is judged on a logical clock (reader ticks), not wall time.",
+      "reference-stream + conservation oracle over blocks tapped at ProcessSegments; scripted packet producers with loss/lag injection", "DESIGN.md §3 C03")
